@@ -114,6 +114,8 @@ impl<T> Iterator for HintIter<T> {
     }
 }
 
+thread_local! { static MASS: std::cell::Cell<bool> = std::cell::Cell::new(false); }
+
 struct Hist {
     streams: bool,
     keyed: bool,
@@ -179,6 +181,16 @@ fn new_member(h: &mut Hist, p: &Profile, nested_pct: u32) -> (Member, Cid) {
         let cid = w(|w| {
             let never = w.chance(p.never_pct);
             let mut script = engine_a::gen_script(w, p, streams, never, p.err_pct);
+            if MASS.with(|m| m.get()) && !w.chance(20) {
+                script = match (streams, w.below(3)) {
+                    (true, 0) => vec![Step::End],
+                    (true, 1) => vec![Step::Item, Step::End],
+                    (true, _) => vec![Step::PendLater, Step::End],
+                    (false, 0) => vec![Step::Ok],
+                    (false, 1) => vec![Step::Err],
+                    (false, _) => vec![Step::PendLater, Step::Ok],
+                };
+            }
             if w.inject_panic && w.chance(12) {
                 let at = w.below(script.len().min(6).max(1));
                 script.insert(at, Step::Panic);
@@ -236,7 +248,11 @@ pub fn run(prop: &str, thorough: bool, case_seed: u64, sub: u64) -> ExecOut {
     let mut h = Hist { streams, keyed, live: BTreeMap::new(), unknown: vec![], all_keys: vec![], ever_used: BTreeSet::new(), slot_ids: BTreeMap::new(), prop: prop_s, next_idx: 0 };
     // constructor: with_capacity(n) | new() | from_iter(initial members, any legal size_hint)
     let ctor = w(|w| [0u8, 0, 1, 2][w.below(4)]);
-    let mut inserts_left = 2 + w(|w| w.below(if thorough { 10 } else { 8 }));
+    // "mass" histories (6 %): many members, most of them degenerate (end / resolve at once, or after one wake), so
+    // that ten and more members finish inside one poll of the group (inline buffers of the library spill there)
+    let mass = w(|w| w.chance(6));
+    MASS.with(|m| m.set(mass));
+    let mut inserts_left = if mass { 11 + w(|w| w.below(8)) } else { 2 + w(|w| w.below(if thorough { 10 } else { 8 })) };
     let mut ctor_desc = format!("with_capacity({cap0})");
     let mut init_f: Vec<BF> = vec![];
     let mut init_s: Vec<BS> = vec![];
